@@ -11,6 +11,9 @@
 (*          `sealed` = it decrypts under a key derived for this tunnel,      *)
 (*          `marker` = the frame contains the plaintext marker               *)
 (*   Recv   the frame reached the endpoint of the tunnel                     *)
+(*   Close  a CLOSE / RESET frame of the tunnel on the last link towards the *)
+(*          exit; what the exit still sends afterwards must be sealed under  *)
+(*          the tunnel key (never plaintext, never a wiped key)              *)
 (*   Timeout the ingress gave up waiting for the answer to its OPEN (a data  *)
 (*          frame of that tunnel afterwards - or before any key is held -    *)
 (*          has no matching action: rejected)                                *)
@@ -101,6 +104,12 @@ TraceTimeout ==
   /\ Consume("Timeout") /\ UNCHANGED fpOf
   /\ IngressOpenTimeout(ev.t)
 
+\* a CLOSE / RESET of the tunnel has been written on the last link towards the exit
+TraceClose ==
+  /\ Consume("Close") /\ UNCHANGED fpOf
+  /\ tun' = [tun EXCEPT ![ev.t] = [@ EXCEPT !.xst = IF @ = "open" THEN "closed" ELSE @]]
+  /\ UNCHANGED <<links, relay, usedSid, knows, derivs>>
+
 TraceData ==
   /\ Consume("Data") /\ UNCHANGED fpOf
   /\ ev.marker = FALSE                         \* plaintext never visible on a link
@@ -111,8 +120,14 @@ TraceData ==
             /\ SendData(ev.t, "I", ev.ct)
      ELSE IF ev.dir = "bwd" /\ ev.hop = LastHop
        THEN /\ tun[ev.t].xsid = Id(ev.sid)
-            /\ ev.sealed = (tun[ev.t].xst = "open")
-            /\ SendData(ev.t, "X", ev.ct)
+            /\ IF tun[ev.t].xst = "closed"
+                 \* the teardown has reached the exit: bytes it had already read (ExitRead ; ExitSeal)
+                 THEN /\ ev.sealed = IsSealedUnder(ExitBody(ev.t, ev.ct), tun[ev.t].xkey)
+                      /\ links' = [links EXCEPT ![LastHop] = @ \cup {Frame("DATA", "bwd", ev.sid, ev.t, NoVal, NoVal, ExitBody(ev.t, ev.ct))}]
+                      /\ tun' = [tun EXCEPT ![ev.t] = [@ EXCEPT !.sentX = @ + 1]]
+                      /\ UNCHANGED <<relay, usedSid, knows, derivs>>
+                 ELSE /\ ev.sealed = (tun[ev.t].xst = "open")
+                      /\ SendData(ev.t, "X", ev.ct)
      ELSE LET src == IF ev.dir = "fwd" THEN ev.hop - 1 ELSE ev.hop + 1
               p == IF ev.dir = "fwd" THEN ev.hop ELSE ev.hop + 1
           IN \E f \in links[src] :
@@ -136,7 +151,7 @@ TraceReset ==
   /\ knows' = [a \in Agents |-> {}]
   /\ derivs' = {}
 
-TraceNext == TraceOpen \/ TraceDerive \/ TraceAck \/ TraceErr \/ TraceFail \/ TraceTimeout \/ TraceData \/ TraceRecv
+TraceNext == TraceOpen \/ TraceDerive \/ TraceAck \/ TraceErr \/ TraceFail \/ TraceTimeout \/ TraceClose \/ TraceData \/ TraceRecv
              \/ TraceReset
 TraceSpec == TraceInit /\ [][TraceNext]_<<vars, l, fpOf>>
 
